@@ -157,6 +157,18 @@ def jac_stock(sc):
         def F():
             ss.PFlow.fg_update()
             return np.hstack([np.array(dae.f), np.array(dae.g)])
+    # in-place parameter changes after the first Jacobian evaluation: the residual uses the new values, so must the Jacobian
+    if sc.get("alter_after_init"):
+        ss.j_update(models=models)
+        for mname, pname in (("GENCLS", "D"), ("GENROU", "D"), ("GENROU", "M"), ("TGOV1", "R"), ("EXDC2", "KA"), ("Line", "x"),
+                             ("PQ", "p0"), ("IEEEG1", "K"), ("ESST3A", "KA"), ("REGCA1", "Tg")):
+            mdl = ss.models[mname]
+            if mdl.n == 0 or mname not in models:
+                continue
+            for k in range(min(mdl.n, 2)):
+                par = mdl.__dict__[pname]
+                v = float(par.vin[k]) if par.vin is not None else float(par.v[k])
+                mdl.alter(pname, mdl.idx.v[k], v * 1.7 + 0.1)
     n, m = dae.n, dae.m
     def flags():
         out = []
